@@ -376,7 +376,7 @@ def run(chk):
     try:
         jobs = plan(chk.tier)
         seed = chk.seed
-        simn = 60 if quick else 600
+        simn = 60 if quick else 400
         jobs.append(("Names_Sim[pool]", "Names_Gen", "Names_Sim.cfg", "pool",
                      {"workers": 1, "timeout": 3000, "simulate": simn, "depth": 14, "seed": seed + 1}))  # 1: reproducible
         results = {}
@@ -490,7 +490,7 @@ def run(chk):
                         work.append((names, items[off:off + B], on, every))
         work.sort(key=lambda wk: -len(wk[1]) * (8 if len(wk[0]) > 2 else 1))
         reads = hists = 0
-        for out in pool.imap_unordered(_replay_job, work, chunksize=1):
+        for out in _results(pool, pool.imap_unordered(_replay_job, work, chunksize=1)):
             reads += out["reads"]
             hists += out["hist"]
             chk.nontriv(n=out["nontriv"])
@@ -508,6 +508,22 @@ def run(chk):
                       "deviation_counts": _count_sigs(chk)})
     chk.sample({"history": [_W_text(s) for s in work[0][1][0][0]], "names": work[0][0]} if work else {})
     chk.exhaustive = True
+
+
+def _results(pool, it):
+    """iterate over pool results, but do not wait forever when a worker process has been killed (multiprocessing
+    replaces a dead worker silently and its task is lost)"""
+    pids = sorted(p.pid for p in getattr(pool, "_pool", []))
+    while True:
+        try:
+            yield it.next(timeout=120)
+        except StopIteration:
+            return
+        except mp.TimeoutError:
+            now = sorted(p.pid for p in getattr(pool, "_pool", []))
+            if now != pids:
+                raise RuntimeError("a worker process of the replay pool died (killed from outside?): results are "
+                                   "incomplete, run the check again")
 
 
 def _count_sigs(chk):
